@@ -1,5 +1,6 @@
 From Coq Require Import List String NArith Bool.
 From FP Require Import Model.Chars Model.Ast Model.Sexp Model.Compile Spec.Tree Proofs.ImplicitPrint.
+From FP Require Import Spec.FileRecord Spec.FindSem.
 From FP Require Properties.C09.
 Import ListNotations.
 Check C09.C09_added : forall e o clk c,
@@ -11,3 +12,8 @@ Check C09.C09_not_added : forall e o clk c,
   has_action e = true -> no_default e = true -> compile e o clk = COk c ->
   atom_occurs prp (c_body c) = false.
 Check C09.C09_action_anywhere : forall e, has_action e = true <-> exists a, Subterm (EAction a) e.
+Check C09.C09_meaning : forall h e clk f, has_action e = false ->
+  feval h (wrap e) clk f =
+    (fst (fst (feval h e clk f)),
+     if fst (fst (feval h e clk f)) then [(DStdout, f_relative_path f, Some 10%N)] else [],
+     false).
